@@ -55,7 +55,19 @@ SCOPE = (
     "1e-5 relative for the float32 cosines. Undirected-only library measures (average/max "
     "neighbour AWC, undirected link distances, total link distance) are evaluated on undirected "
     "networks, in/out variants on directed ones; geometry-corrected variants and histograms are "
-    "not evaluated."
+    "not evaluated.  "
+    "Round 3: every GeoGrid / Grid case is also stored and re-read (GeoGrid.save_txt -> LoadTXT, "
+    "Grid.save -> Grid.Load): the loaded grid must hold exactly the stored float32 coordinates, give "
+    "the identical distance matrix (and one within the statement's error of the closed form) and "
+    "answer the nearest-node queries minimally; one-node grids and one-point time axes included.  "
+    "convert_lon_coordinates on the grid's own longitudes (and on 0..360 sequences): every value is "
+    "the input or the input - 360, lies in [-180, 180], and a grid built from the converted "
+    "longitudes has the closed-form distances.  region_indices on the polygons returned by "
+    "GeoGrid.region('ENSO'|'NINO34') against an even-odd crossing-number test in the (lon, lat) "
+    "plane (negative polygon longitudes + 360 on 0..360 grids), nodes within 1e-3 deg of a polygon "
+    "edge not judged; dedicated lattices / random sets over the tropical Pacific in both longitude "
+    "conventions.  GeoGrid.RegularGrid accepts tuple and list of two axes and raises ValueError for "
+    "any other number of axes (such a grid could not enumerate the product of its axes)."
 )
 RULE = (
     "One case = one coordinate set / axis list / (grid, graph) pair, keyed by family, index and "
@@ -127,7 +139,144 @@ class Ctx:
             self.rec.fail(check, self.case, detail() if callable(detail) else detail)
 
 
+# ------------------------------------------------------------------------------ polygons, files
+
+def point_in_polygon(px, py, poly):
+    """Even-odd crossing number of the horizontal ray to +x; poly = [(x, y), ...] (closed implicitly)."""
+    inside = False
+    n = len(poly)
+    for k in range(n):
+        (x0, y0), (x1, y1) = poly[k], poly[(k + 1) % n]
+        if (y0 > py) != (y1 > py):
+            xc = x0 + (py - y0) * (x1 - x0) / (y1 - y0)
+            if xc > px:
+                inside = not inside
+    return inside
+
+
+def dist_to_polygon(px, py, poly):
+    best = np.inf
+    n = len(poly)
+    for k in range(n):
+        (x0, y0), (x1, y1) = poly[k], poly[(k + 1) % n]
+        dx, dy = x1 - x0, y1 - y0
+        L2 = dx * dx + dy * dy
+        t = 0.0 if L2 == 0 else min(1.0, max(0.0, ((px - x0) * dx + (py - y0) * dy) / L2))
+        best = min(best, float(np.hypot(px - (x0 + t * dx), py - (y0 + t * dy))))
+    return best
+
+
+def _tmpbase():
+    import tempfile
+    return tempfile.mkdtemp(prefix="c12_")
+
+
+def _rmtree(d):
+    import shutil
+    shutil.rmtree(d, ignore_errors=True)
+
+
 # ------------------------------------------------------------------------------ GeoGrid
+
+def check_geo_roundtrip(c, case, g, D, la32, lo32, O, ntime):
+    """save_txt -> LoadTXT and save -> Load: a loaded grid is the stored grid."""
+    from pyunicorn.core.geo_grid import GeoGrid
+    from pyunicorn.core.grid import Grid
+    N = len(la32)
+    la, lo = la32.astype(float), lo32.astype(float)
+    tmp = _tmpbase()
+    try:
+        for name, store, load in (("GeoGrid.save_txt-LoadTXT", lambda f: g.save_txt(f), lambda f: GeoGrid.LoadTXT(f)),
+                                  ("GeoGrid.save-Load", lambda f: g.save(f + ".pkl"), lambda f: Grid.Load(f + ".pkl"))):
+            base = tmp + "/" + ("t" if "txt" in name else "p")
+            try:
+                with quiet():
+                    store(base)
+                    g2 = load(base)
+                    D2 = np.asarray(g2.angular_distance())
+            except Exception as e:      # noqa: BLE001
+                c.ev(name + "/loadable", False, "%s: %s" % (type(e).__name__, e))
+                continue
+            c.ev(name + "/loadable", isinstance(g2, GeoGrid), "loaded object is %r" % type(g2).__name__)
+            ok = (g2.N == N and np.array_equal(np.asarray(g2.lat_sequence()), la32)
+                  and np.array_equal(np.asarray(g2.lon_sequence()), lo32)
+                  and np.asarray(g2.lat_sequence()).dtype == np.float32
+                  and np.array_equal(np.asarray(g2.grid()["time"], dtype=float), np.arange(ntime, dtype=float)))
+            c.ev(name + "/same-coordinates", bool(ok), lambda: "N %r lat %r lon %r time %r" % (
+                g2.N, np.asarray(g2.lat_sequence()).tolist()[:6], np.asarray(g2.lon_sequence()).tolist()[:6],
+                np.asarray(g2.grid()["time"]).tolist()[:4]))
+            c.ev(name + "/same-distance-matrix", D2.shape == D.shape and bool(np.array_equal(D2, D, equal_nan=True)),
+                 lambda: "%d entries differ" % int((D2 != D).sum()) if D2.shape == D.shape else "shape %r" % (D2.shape,))
+            if D2.shape == O.shape:
+                err = np.where(np.isfinite(D2), np.abs(D2.astype(float) - O), np.inf)
+                c.ev(name + "/distance-closed-form", bool((err <= ang_allowance(O)).all()),
+                     lambda: "max error %g" % err.max())
+            for q in case.get("queries", [])[:6]:
+                with quiet():
+                    r = int(g2.node_number(float(q[0]), float(q[1])))
+                dq = G.great_circle_to(float(q[0]), float(q[1]), la, lo)
+                m = float(dq.min())
+                c.ev(name + "/node_number-minimal", 0 <= r < N and dq[r] <= m + float(ang_allowance(dq[r])) + float(ang_allowance(m)),
+                     lambda: "query %r: node %d at %r, minimum %r" % (q, r, dq[r] if 0 <= r < N else None, m))
+    finally:
+        _rmtree(tmp)
+
+
+def check_convert_lon(c, case, g, la, lo):
+    """convert_lon_coordinates: 'Return longitude coordinates in the system -180 <= lon <= +180 for
+    all nodes. Accepts ... 0 <= lon <= 360' - the same meridians; the closed-form distance is
+    360-periodic in longitude, so a grid built from the converted longitudes has the same geometry."""
+    from pyunicorn.core.geo_grid import GeoGrid
+    N = len(la)
+    seqs = [("own", lo.copy())]
+    if lo.min() < 0:
+        seqs.append(("mod360", np.mod(lo, 360.0)))      # the same nodes in the 0..360 system (exact for float32 input)
+    for tag, seq in seqs:
+        with quiet():
+            out = np.asarray(g.convert_lon_coordinates(seq.copy()), dtype=float)
+        same = out.shape == (N,) and bool(np.all((out == seq) | (out == seq - 360.0)))
+        c.ev("convert_lon_coordinates/same-meridian", same, lambda: "in %r out %r" % (seq.tolist()[:8], out.tolist()[:8]))
+        if not same:
+            continue
+        dom = (seq >= -180.0) & (seq <= 360.0)
+        c.ev("convert_lon_coordinates/within-180-system", bool(np.all((out[dom] >= -180.0) & (out[dom] <= 180.0))),
+             lambda: "in %r out %r" % (seq[dom].tolist()[:8], out[dom].tolist()[:8]))
+        if N <= 64:
+            with quiet():
+                g2 = GeoGrid(np.arange(3), la.copy(), out.copy(), silence_level=3)
+                D2 = np.asarray(g2.angular_distance(), dtype=float)
+            O2 = G.great_circle_matrix(la, f32(out).astype(float))
+            err = np.where(np.isfinite(D2), np.abs(D2 - O2), np.inf)
+            c.ev("convert_lon_coordinates/converted-grid-closed-form-distances", bool((err <= ang_allowance(O2)).all()),
+                 lambda: "max error %g" % err.max())
+
+
+def check_std_regions(c, case, g, la, lo):
+    """region_indices on the library's standard polygons GeoGrid.region(name)."""
+    from pyunicorn.core.geo_grid import GeoGrid
+    N = len(la)
+    for name in case.get("std_regions", []):
+        poly_flat = GeoGrid.region(name)
+        ok = isinstance(poly_flat, np.ndarray) and poly_flat.ndim == 1 and poly_flat.size >= 6 and poly_flat.size % 2 == 0
+        c.ev("region/lon-lat-polygon", bool(ok), "region(%r) = %r" % (name, poly_flat))
+        if not ok:
+            continue
+        with quiet():
+            got = np.asarray(g.region_indices(poly_flat.copy()))
+        poly = [(float(poly_flat[2 * k]), float(poly_flat[2 * k + 1])) for k in range(poly_flat.size // 2)]
+        if lo.min() >= 0:      # documented remap of negative region longitudes onto 0..360
+            poly = [(x + 360.0 if x < 0 else x, y) for (x, y) in poly]
+        if poly[0] == poly[-1]:
+            poly = poly[:-1]
+        exp = np.array([point_in_polygon(lo[i], la[i], poly) for i in range(N)])
+        judged = np.array([dist_to_polygon(lo[i], la[i], poly) > 1e-3 for i in range(N)])
+        bad = got.shape != (N,) or bool(np.any((got.astype(bool) != exp) & judged))
+        c.ev("region_indices/standard-region-point-in-polygon", not bad,
+             lambda: "region %s: nodes %r (lat, lon) %r: got %r expected %r" % (
+                 name, np.nonzero((got.astype(bool) != exp) & judged)[0].tolist()[:6],
+                 [(la[i], lo[i]) for i in np.nonzero((got.astype(bool) != exp) & judged)[0][:3]],
+                 got.astype(int).tolist()[:20], exp.astype(int).tolist()[:20]))
+
 
 def check_geo(rec, case):
     from pyunicorn.core.geo_grid import GeoGrid
@@ -139,14 +288,18 @@ def check_geo(rec, case):
     O = G.great_circle_matrix(la, lo)
     distinct = len({(a, b) for a, b in zip(la.tolist(), lo.tolist())})
     c = Ctx(rec, case, distinct >= 3)
+    ntime = int(case.get("ntime", 3))
     with quiet():
-        g = GeoGrid(np.arange(3), lat.copy(), lon.copy(), silence_level=3)
+        g = GeoGrid(np.arange(ntime), lat.copy(), lon.copy(), silence_level=3)
         D = np.asarray(g.angular_distance())
     Dd = D.astype(float)
 
     c.ev("angular_distance/shape", D.shape == (N, N) and g.N == N, "shape %r N %r" % (D.shape, g.N))
     if D.shape != (N, N):
         return
+    check_geo_roundtrip(c, case, g, D, la32, lo32, O, ntime)
+    check_convert_lon(c, case, g, la, lo)
+    check_std_regions(c, case, g, la, lo)
     fin = bool(np.isfinite(Dd).all())
     c.ev("angular_distance/finite-within-0-pi", fin and bool((Dd >= 0).all() and (Dd <= PI32).all()),
          lambda: "min %r max %r nan %d" % (np.nanmin(Dd), np.nanmax(Dd), int(np.isnan(Dd).sum())))
@@ -267,6 +420,30 @@ def check_euclid(rec, case):
     c.ev("distance/is-euclidean-distance", D2.shape == D.shape and bool(np.array_equal(D2, D, equal_nan=True)), "Grid.distance() differs")
     oks = all(np.array_equal(np.asarray(g.sequence(d)), X32[d]) for d in range(dim))
     c.ev("sequence/input-coordinates-in-order", oks, "sequence(d) differs from the input row d")
+    tmp = _tmpbase()
+    try:
+        try:
+            with quiet():
+                g.save(tmp + "/g.pkl")
+                g2 = Grid.Load(tmp + "/g.pkl")
+                D3 = np.asarray(g2.euclidean_distance())
+        except Exception as e:      # noqa: BLE001
+            c.ev("Grid.save-Load/loadable", False, "%s: %s" % (type(e).__name__, e))
+        else:
+            c.ev("Grid.save-Load/same-coordinates",
+                 g2.N == N and all(np.array_equal(np.asarray(g2.sequence(d)), X32[d]) for d in range(dim)),
+                 "loaded grid has other coordinates")
+            c.ev("Grid.save-Load/same-distance-matrix", D3.shape == D.shape and bool(np.array_equal(D3, D, equal_nan=True)),
+                 "loaded grid gives another euclidean_distance()")
+            for q in case.get("queries", [])[:3]:
+                with quiet():
+                    r = int(g2.node_number(tuple(q)))
+                d2 = G.exact_sq_distances(q, Xd.tolist())
+                m = min(d2)
+                c.ev("Grid.save-Load/node_number-minimal", 0 <= r < N and float(d2[r]) <= float(m) * (1 + 1e-12) + 1e-300,
+                     lambda: "query %r: node %d" % (q, r))
+    finally:
+        _rmtree(tmp)
     b = g.boundaries()
     c.ev("boundaries/space-extrema", bool(np.allclose(b["space_min"], X.min(axis=1), rtol=1e-6, atol=0)
                                           and np.allclose(b["space_max"], X.max(axis=1), rtol=1e-6, atol=0)), lambda: "%r" % (b,))
@@ -304,6 +481,8 @@ def check_rect(rec, case):
     gs = np.array([np.asarray(g.sequence(d), dtype=float) for d in range(dim)])
     prod32 = sorted(tuple(float(np.float32(v)) for v in t) for t in prod)
     c.ev("Grid.RegularGrid/cartesian-product", g.N == len(prod) and cols(gs) == prod32, "N=%r" % g.N)
+    if dim != 2:
+        check_rect_geo_arity(c, axes)
     if dim == 2:
         a0, a1 = axes
         exp = np.array([np.repeat(a0, len(a1)), np.tile(a1, len(a0))])
@@ -317,10 +496,33 @@ def check_rect(rec, case):
              la.shape == lo.shape == (len(prod),) and sorted(zip(la.tolist(), lo.tolist())) == prod
              and bool(np.array_equal(la, exp[0]) and np.array_equal(lo, exp[1])),
              lambda: "lat %r lon %r" % (la.tolist(), lo.tolist()))
+        with quiet():
+            gl = GeoGrid.RegularGrid(np.arange(3), [a0.copy(), a1.copy()], silence_level=3)
+        c.ev("GeoGrid.RegularGrid/list-of-two-axes",
+             gl.N == len(prod) and bool(np.array_equal(np.asarray(gl.lat_sequence()), f32(exp[0]))
+                                        and np.array_equal(np.asarray(gl.lon_sequence()), f32(exp[1]))),
+             lambda: "lat %r lon %r" % (np.asarray(gl.lat_sequence()).tolist(), np.asarray(gl.lon_sequence()).tolist()))
         c.ev("GeoGrid.RegularGrid/lat-x-lon-product",
              gg.N == len(prod) and bool(np.array_equal(np.asarray(gg.lat_sequence()), f32(exp[0]))
                                         and np.array_equal(np.asarray(gg.lon_sequence()), f32(exp[1]))),
              lambda: "lat %r lon %r" % (np.asarray(gg.lat_sequence()).tolist(), np.asarray(gg.lon_sequence()).tolist()))
+
+
+def check_rect_geo_arity(c, axes):
+    """GeoGrid.RegularGrid with other than two axes cannot enumerate the product of its axes in
+    (lat, lon): the documented outcome is a ValueError."""
+    from pyunicorn.core.geo_grid import GeoGrid
+    for form in (tuple, list):
+        try:
+            with quiet():
+                gg = GeoGrid.RegularGrid(np.arange(3), form(a.copy() for a in axes), silence_level=3)
+            c.ev("GeoGrid.RegularGrid/rejects-other-than-two-axes", False,
+                 "%d axes given as %s: returned a grid with N=%r" % (len(axes), form.__name__, getattr(gg, "N", None)))
+        except ValueError:
+            c.ev("GeoGrid.RegularGrid/rejects-other-than-two-axes", True)
+        except Exception as e:      # noqa: BLE001
+            c.ev("GeoGrid.RegularGrid/rejects-other-than-two-axes", False,
+                 "%d axes: %s: %s (ValueError documented)" % (len(axes), type(e).__name__, e))
 
 
 # ------------------------------------------------------------------------------ networks on grids
@@ -607,6 +809,31 @@ def build_cases(tier, seed):
             lat[-1], lat[-2] = 90.0, -90.0
         cs = {"kind": "geo", "key": "geo-rand-%d-s%d" % (r, seed), "lat": lat.tolist(), "lon": lon.tolist()}
         cases.append(with_queries(rng, cs, 10))
+    # --- standard regions (GeoGrid.region): lattices and random sets over the tropical Pacific, both
+    #     longitude conventions; one-point time axes; the fixed sets once more with the regions
+    la_ax = np.arange(-15.0, 15.1, 2.5)
+    lo_ax = np.arange(-180.0, -69.9, 5.0)
+    LA, LO = np.meshgrid(la_ax, lo_ax, indexing="ij")
+    for name, lon_ in (("pacific-lattice-180", LO.ravel()), ("pacific-lattice-360", LO.ravel() + 360.0)):
+        cs = {"kind": "geo", "key": "geo-" + name, "lat": LA.ravel().tolist(), "lon": lon_.tolist(),
+              "std_regions": ["ENSO", "NINO34"], "ntime": 1}
+        cases.append(with_queries(rng, cs, 4))
+    for r in range(12 if not thorough else 120):
+        n = int(rng.randint(1, 61))
+        lat = rng.uniform(-14, 14, n)
+        lon = rng.uniform(-179.5, -75, n)
+        if r % 2:
+            lon = lon + 360.0
+        if r % 3 == 0:                 # some nodes far away from the regions
+            k = n // 3
+            lat[:k], lon[:k] = sphere_points(rng, k, lon360=bool(r % 2))
+        cs = {"kind": "geo", "key": "geo-pacific-%d-s%d" % (r, seed), "lat": lat.tolist(), "lon": lon.tolist(),
+              "std_regions": ["ENSO", "NINO34"], "ntime": 1 + r % 3}
+        cases.append(with_queries(rng, cs, 4))
+    for name, lat, lon in fixed_geo_sets()[-5:]:
+        cs = {"kind": "geo", "key": "geo-fixed-regions-" + name, "lat": [float(x) for x in lat], "lon": [float(x) for x in lon],
+              "std_regions": ["ENSO", "NINO34"], "ntime": 1}
+        cases.append(with_queries(rng, cs, 2))
     # --- Euclidean sets
     neu = 90 if not thorough else 900
     for r in range(neu):
